@@ -769,19 +769,18 @@ func (s *vScenario) observe(st *vState) *vObs {
 		streams := []vEntry{}
 		tagsOf := map[string][]string{}
 		errS := ""
-		if len(hv.indexes) != 0 {
-			if err := hv.AllStreams(ctx, func(sc StreamContext) error {
-				e, err := vStreamEntry(sc.Stream())
-				if err != nil {
-					return err
-				}
-				streams = append(streams, e)
-				tags, _ := sc.AllTags()
-				tagsOf[fmt.Sprint(e.ID)] = tags
-				return nil
-			}); err != nil {
-				errS = err.Error()
+		// (also a view opened while nothing was imported yet: it has to stay empty)
+		if err := hv.AllStreams(ctx, func(sc StreamContext) error {
+			e, err := vStreamEntry(sc.Stream())
+			if err != nil {
+				return err
 			}
+			streams = append(streams, e)
+			tags, _ := sc.AllTags()
+			tagsOf[fmt.Sprint(e.ID)] = tags
+			return nil
+		}); err != nil {
+			errS = err.Error()
 		}
 		sort.Slice(streams, func(i, j int) bool { return streams[i].ID < streams[j].ID })
 		digest := fmt.Sprint(streams, tagsOf)
